@@ -3,7 +3,7 @@
    proved in C09/TopoLemmas.v, C09/Lemmas.v or C09/Lemmas2.v.  The Kubernetes
    validators are the fields of the universally quantified [oracles] record. *)
 From Coq Require Import ZArith List Relations Permutation.
-From V Require Import C09.Model C09.Laws C09.TopoLemmas C09.Lemmas C09.Lemmas2.
+From V Require Import C09.Model C09.Laws C09.TopoLemmas C09.Lemmas C09.Lemmas2 C09.LawLemmas.
 Import ListNotations.
 Open Scope Z_scope.
 
@@ -19,6 +19,30 @@ Print Assumptions C09_admit_create_sound.
 Theorem C09_toposort_sound : forall g order, topo g = TopoOk order -> topo_order g order.
 Proof. exact toposort_sound. Qed.
 Print Assumptions C09_toposort_sound.
+
+(* ... and for EVERY iteration order of Go's maps (initial stack order, which stack
+   element is taken, order in which successors are visited): a run that outputs as
+   many tasks as the job has outputs a topological order, so no order lets a cyclic
+   or dangling graph through; the model's deterministic run is one such run *)
+Theorem C09_toposort_sound_any_order : forall g st0 final,
+  Permutation st0 (filter (fun n => deg0 g n =? 0) (dedup (gnames g) [])) ->
+  krun g st0 (deg0 g) [] final -> length final = length g ->
+  topo_order g (rev final).
+Proof. exact toposort_sound_any_order. Qed.
+Print Assumptions C09_toposort_sound_any_order.
+
+Theorem C09_toposort_any_order_rejects : forall g st0 final,
+  Permutation st0 (filter (fun n => deg0 g n =? 0) (dedup (gnames g) [])) ->
+  krun g st0 (deg0 g) [] final -> length final = length g ->
+  (forall n ds d, In (n, ds) g -> In d ds -> In d (gnames g)) /\
+  (forall x, ~ clos_trans Z (edge g) x x).
+Proof. exact toposort_any_order_rejects. Qed.
+Print Assumptions C09_toposort_any_order_rejects.
+
+Theorem C09_kahn_is_krun : forall g fuel st deg rs final,
+  kahn fuel g st deg rs = Some final -> krun g st deg rs final.
+Proof. exact kahn_is_krun. Qed.
+Print Assumptions C09_kahn_is_krun.
 
 Theorem C09_toposort_fuel_sufficient : forall g, topo g <> TopoFuel.
 Proof. exact toposort_fuel_sufficient. Qed.
@@ -38,12 +62,24 @@ Theorem C09_default_idempotent : forall d j, mutate d (mutate d j) = mutate d j.
 Proof. exact default_idempotent. Qed.
 Print Assumptions C09_default_idempotent.
 
+(* hypotheses on the REQUEST only: it is valid once names and queue are filled in,
+   and its own numbers are in range (replicas >= 0, explicit minAvailable >= 0, a
+   partition-derived minAvailable fits: 0 <= minPartitions*partitionSize <= replicas,
+   total replicas is an int32) *)
 Theorem C09_default_preserves_validity : forall O qs d j,
+  validate_create O qs (prefill j) = true -> request_in_range j = true ->
+  validate_create O qs (mutate d j) = true.
+Proof. exact default_preserves_validity_input. Qed.
+Print Assumptions C09_default_preserves_validity.
+
+(* the earlier form, with the range condition on the defaulted object (kept as a lemma
+   of the former; its hypothesis contains part of the conclusion) *)
+Theorem C09_default_preserves_validity_defaulted_range : forall O qs d j,
   validate_create O qs (prefill j) = true ->
   defaults_in_range (mutate d j) = true ->
   validate_create O qs (mutate d j) = true.
 Proof. exact default_preserves_validity. Qed.
-Print Assumptions C09_default_preserves_validity.
+Print Assumptions C09_default_preserves_validity_defaulted_range.
 
 (* ... and the range condition cannot be dropped (minPartitions > totalPartitions) *)
 Theorem C09_default_validity_needs_range_refuted :
@@ -94,6 +130,78 @@ Theorem C09_create_admits_terminating_target :
 Proof. exact create_admits_terminating_target. Qed.
 Print Assumptions C09_create_admits_terminating_target.
 
+(* ---- what the executable laws mean (Prop-level soundness; iff for the leaf checkers) ---- *)
+Theorem C09_law_create_sound : forall O qs j,
+  law_create O qs j true = true -> intrinsic_clauses O true j /\ queue_wf qs (j_queue j).
+Proof. exact law_create_sound. Qed.
+Print Assumptions C09_law_create_sound.
+
+(* the admission theorem concludes the same clauses *)
+Theorem C09_create_spec_clauses : forall O qs j,
+  create_spec O qs j -> intrinsic_clauses O true j /\ queue_wf qs (j_queue j).
+Proof. exact create_spec_clauses. Qed.
+Print Assumptions C09_create_spec_clauses.
+
+Theorem C09_law_persist_sound : forall O j, law_persist O j = true -> intrinsic_clauses O false j.
+Proof. exact law_persist_sound. Qed.
+Print Assumptions C09_law_persist_sound.
+
+Theorem C09_job_inv_clauses : forall O j, job_inv O j -> intrinsic_clauses O false j.
+Proof. exact job_inv_clauses. Qed.
+Print Assumptions C09_job_inv_clauses.
+
+Theorem C09_law_update_sound : forall old new, law_update old new true = true -> update_spec old new.
+Proof. exact law_update_sound. Qed.
+Print Assumptions C09_law_update_sound.
+
+Theorem C09_law_topo_sound : forall g order, law_topo g true order = true -> topo_order g order.
+Proof. exact law_topo_sound. Qed.
+Print Assumptions C09_law_topo_sound.
+
+Theorem C09_deps_ok_b_sound : forall g,
+  NoDup (gnames g) -> deps_ok_b g = true -> exists order, topo_order g order.
+Proof. exact deps_ok_b_sound. Qed.
+Print Assumptions C09_deps_ok_b_sound.
+
+Theorem C09_law_mutate_sound : forall j m1 m2, law_mutate j m1 m2 = true ->
+  m2 = m1 /\ length (j_tasks m1) = length (j_tasks j) /\
+  (forall t, In t (j_tasks m1) -> t_name t <> 0 /\ t_minavail t <> None /\ t_maxretry t <> 0) /\
+  j_queue m1 <> 0 /\ j_maxretry m1 <> 0 /\
+  (j_queue j <> 0 -> j_queue m1 = j_queue j) /\ (j_minavail j <> 0 -> j_minavail m1 = j_minavail j) /\
+  (j_maxretry j <> 0 -> j_maxretry m1 = j_maxretry j) /\ (j_sched j <> 0 -> j_sched m1 = j_sched j) /\
+  j_policies m1 = j_policies j /\ j_volumes m1 = j_volumes j /\ j_prio m1 = j_prio j /\ j_name m1 = j_name j.
+Proof. exact law_mutate_sound. Qed.
+Print Assumptions C09_law_mutate_sound.
+
+Theorem C09_law_default_valid_sound : forall j v0 v1,
+  law_default_valid j v0 v1 = true -> v0 = true -> request_in_range j = true -> v1 = true.
+Proof. exact law_default_valid_sound. Qed.
+Print Assumptions C09_law_default_valid_sound.
+
+Theorem C09_policies_wf_b_iff : forall ps, policies_wf_b ps = true <-> policies_wf ps.
+Proof. exact policies_wf_b_iff. Qed.
+Print Assumptions C09_policies_wf_b_iff.
+
+Theorem C09_queue_wf_b_iff : forall qs qn, queue_wf_b qs qn = true <-> queue_wf qs qn.
+Proof. exact queue_wf_b_iff. Qed.
+Print Assumptions C09_queue_wf_b_iff.
+
+Theorem C09_volumes_wf_b_strong_iff : forall O vs, volumes_wf_b O true vs = true <-> volumes_wf O vs.
+Proof. exact volumes_wf_b_strong_iff. Qed.
+Print Assumptions C09_volumes_wf_b_strong_iff.
+
+(* a history with a refused request in the middle: verdicts, stored object *)
+Example C09_history_with_refusal :
+  let t r m := mkTask 4 r (Some m) (mkTmpl 1 false 0) [] 3 None None in
+  let jb r m ma pr q := mkJob 7 [t r m] ma [] [] None q 1 3 pr 0 0 in
+  let j0 := jb 2 1 1 0 2 in
+  let us := [jb 5 3 4 1 2; jb 5 3 4 1 5; jb 3 3 3 2 2] in
+  validate_create tq_oracles [mkQueue 1 1 0 false; mkQueue 2 1 1 false] j0 = true /\
+  update_verdicts j0 us = [true; false; true] /\
+  apply_updates j0 us = jb 3 3 3 2 2 /\
+  Forall (fun u => j_name u = j_name j0) us.
+Proof. exact history_with_refusal. Qed.
+
 (* non-vacuity: a three-task job with a dependency chain, a partition policy,
    policies, volumes and the mpi plugin is admitted, stays admitted after
    defaulting, and accepts a replica update *)
@@ -108,6 +216,7 @@ Definition ex_job : job :=
     (Some [mkPlugin 5 0 0]) 0 0 0 0 1 2.
 Example C09_nonvacuous :
   validate_create ex_oracles ex_queues (prefill ex_job) = true /\
+  request_in_range ex_job = true /\
   defaults_in_range (mutate 1 ex_job) = true /\
   validate_create ex_oracles ex_queues (mutate 1 ex_job) = true /\
   validate_create ex_oracles ex_queues ex_job = false /\
